@@ -5,6 +5,7 @@ import (
 
 	"github.com/aperturerobotics/bifrost/link"
 	"github.com/aperturerobotics/bifrost/transport"
+	"github.com/aperturerobotics/bifrost/util/verifhook"
 	"github.com/aperturerobotics/util/promise"
 )
 
@@ -40,6 +41,7 @@ func (h *transportHandler) HandleLinkEstablished(lnk link.Link) {
 
 	// use MaybeAsync to avoid deadlocks if the transport author was not careful.
 	h.c.bcast.HoldLockMaybeAsync(func(broadcast func(), getWaitCh func() <-chan struct{}) {
+		defer verifhook.Event("tc.established", h.c, lnk) // verif: runs last, still under the lock
 		execCtx := h.c.execCtx
 		if execCtx == nil {
 			le.Warn("link established while transport exited, closing link")
@@ -87,6 +89,7 @@ func (h *transportHandler) HandleLinkEstablished(lnk link.Link) {
 // HandleLinkLost is called when a link is lost.
 func (h *transportHandler) HandleLinkLost(lnk link.Link) {
 	h.c.bcast.HoldLockMaybeAsync(func(broadcast func(), getWaitCh func() <-chan struct{}) {
+		defer verifhook.Event("tc.lost", h.c, lnk) // verif: runs last, still under the lock
 		// fast path: clear by uuid
 		luuid := lnk.GetUUID()
 		if el, elOk := h.c.links[luuid]; elOk {
